@@ -317,7 +317,7 @@ func (e *Engine) simple(st *State, fr *Frame, ins ssa.Instruction) bool {
 					return false
 				}
 			}
-			if root != nil && root.K == KAlloc && e.isVolatile(root) {
+			if vr, vp, _ := addrPath(v); root != nil && root.K == KAlloc && vr == root && e.isVolatile(root, vp) {
 				ev := &Event{Kind: "load", Instr: x, Fn: fr.fn, Depth: fr.depth, Pos: e.Pos(x), Addr: v, Volatile: true, Results: []*Term{fr.env[x]}, Site: e.site(fr, x)}
 				if !e.deliver(st, ev) {
 					return false
